@@ -61,7 +61,7 @@ func (d *c17dialT) wait(name string) string {
 			return "closed"
 		}
 		return "returned"
-	case <-time.After(4 * time.Second):
+	case <-time.After(8 * time.Second):
 		return "timeout"
 	}
 }
@@ -128,7 +128,9 @@ func (w *c17world) dialOp(tk []string) (string, bool) {
 			d.phase = "closed"
 			return "closed", true
 		default:
-			return o, true
+			// the held goroutine did not show up at its next point in time (a swamped machine): no verdict
+			w.incon = "the server's connect did not reach its launch: " + o
+			return "harness-error", true
 		}
 	case tk[1] == "dlaunch" && len(tk) == 3 && d.phase == "registered":
 		d.release <- struct{}{}
@@ -143,7 +145,8 @@ func (w *c17world) dialOp(tk []string) (string, bool) {
 			d.phase = "closed"
 			return "closed", true
 		default:
-			return o, true
+			w.incon = "the server's send did not return: " + o
+			return "harness-error", true
 		}
 	case tk[1] == "dmsg" && len(tk) == 4 && d.phase == "running" && !w.stopped:
 		m, err := strconv.ParseInt(tk[3], 10, 64)
